@@ -8,7 +8,7 @@ import sys
 import time
 
 import vpdriver as D
-from vpanalyze import GenIndex, failures, LABEL_RE
+from vpanalyze import GenIndex, failures, fsig, LABEL_RE
 
 PROPS = [json.loads(l) for l in open(os.path.join(D.VERIF, 'properties.jsonl'))]
 PROP_IDS = [p['id'] for p in PROPS]
@@ -17,6 +17,8 @@ EVID = os.path.join(D.VERIF, 'evidence')
 REPLAY = os.path.join(D.VERIF, 'replay_out')
 
 # failures of these kinds inside a verified function body are panics / overflows / non-termination: property C03
+C03_PANIC_MSGS = ('possible arithmetic underflow/overflow', 'decreases not satisfied', 'possible division by zero',
+                  'index out of bounds', 'could not prove termination', 'unreachable', 'possible bit shift', 'may be out of range')
 C03_MSGS = ('possible arithmetic underflow/overflow', 'precondition not satisfied', 'decreases not satisfied', 'possible division by zero',
             'index out of bounds', 'could not prove termination', 'unreachable')
 
@@ -78,6 +80,72 @@ def scan_trusted():
 MUST_FAIL = '\n// vacuity probe: this obligation MUST fail (detects an inconsistent trusted base)\nproof fn vp_must_fail() { assert(false); }\n'
 
 
+def contract_labels(key, fname=None):
+    """labels written in the @fn / @items section `key` of the contract files"""
+    labs = []
+    nk = re.sub(r'\s+', '', key)
+    for f in sorted(glob.glob(os.path.join(D.VERIF, 'contracts', '*.vpc'))):
+        cur = False
+        for line in open(f):
+            t = line.strip()
+            if t.startswith('@fn ') or t.startswith('@items '):
+                cur = re.sub(r'\s+', '', t.split(' ', 1)[1]) == nk
+            elif t.startswith('@end'):
+                cur = False
+            elif cur:
+                labs += LABEL_RE.findall(t)
+    return labs
+
+
+# library functions the crate does not call today but whose contract in prelude/ is a complete functional specification
+FULLY_SPECIFIED = {'length_of_length', 'trim_start_matches', 'strip_prefix', 'map_or', 'try_from', 'write_str', 'encode_string'}
+
+
+def novelty(xlog):
+    """function key -> why a failed proof inside it is no evidence against the code: the changed body calls a library function
+    that no function of the unchanged tree calls (its assumed contract, if any, was never exercised by a proof and is usually
+    too weak), or it holds a closure that has no contract (Verus cannot see through one)."""
+    try:
+        sb = json.load(open(os.path.join(D.VERIF, 'contracts', 'shape_baseline.json')))
+    except Exception:
+        return {}
+    now = xlog.get('shapes', {})
+    crate_names = set(k.split('::')[-1] for k in list(now) + list(sb))
+    used_anywhere = set()
+    for v in sb.values():
+        used_anywhere.update(v.get('calls', []))
+    new_fns = set(k.split('::')[-1] for k in now) - set(k.split('::')[-1] for k in sb)
+    out = {}
+    for k, sh in now.items():
+        base = sb.get(k)
+        why = []
+        new_calls = sorted(set(sh.get('calls', [])) - used_anywhere - crate_names - FULLY_SPECIFIED)
+        if new_calls:
+            why.append('calls library functions the unchanged crate never calls: ' + ', '.join(new_calls))
+        new_helpers = sorted(set(sh.get('calls', [])) & new_fns)
+        if new_helpers:
+            why.append('calls functions that do not exist on the unchanged tree and have no contract: ' + ', '.join(new_helpers))
+        bare_now = sh.get('closures', 0) - sh.get('closure_contracts', 0)
+        bare_base = (base.get('closures', 0) - base.get('closure_contracts', 0)) if base else 0
+        if bare_now > bare_base:
+            why.append('holds %d closure(s) without a contract (unchanged tree: %d)' % (bare_now, bare_base))
+        if why:
+            out[re.sub(r'\s+', '', k)] = '; '.join(why)
+    return out
+
+
+def load_hint_baseline():
+    """contracts/hint_baseline.json, or {} when it is missing or was computed for other contracts (stale)"""
+    try:
+        hb = json.load(open(os.path.join(D.VERIF, 'contracts', 'hint_baseline.json')))
+    except Exception:
+        return {}
+    from vpanalyze import inputs_hash
+    if hb.get('_inputs_hash') != inputs_hash():
+        return {}
+    return hb
+
+
 def run_all(tier, seed):
     """one shared Verus run per (tree, tier, seed); cached"""
     os.makedirs(CACHE, exist_ok=True)
@@ -93,19 +161,29 @@ def run_all(tier, seed):
     res = {'key': key, 'tier': tier, 'seed': seed, 'runs': [], 'cached': False, 'degraded': {}}
     base_cfg = json.load(open(os.path.join(D.VERIF, 'contracts', 'extract.json')))
     nohint, dropped = [], []
+    skip = {}      # function key -> hint ids left out (their text no longer compiles, or a fuzzy placement did not help)
+    norm = lambda k: re.sub(r'\s+', '', str(k))
+    hb = load_hint_baseline()
 
     def one(path, extra, name):
         r = D.run_verus(path, ['--time-expanded'] + extra, timeout=3000)
         r['name'] = name
         return r
 
-    # Fallback ladder (never turns a tool limit into an alarm): a function whose injected hints or whose new source text
-    # the tools reject is retried without hints, then with its body dropped (its contract is then unverified -> UNDECIDED
-    # for the properties that depend on it); all other functions are still decided.
-    for attempt in range(4):
+    # Fallback ladder (never turns a tool limit into an alarm).
+    #  1. hints whose anchor statement is gone are left out (vpx first tries the statement that is clearly the closest);
+    #  2. a hint that no longer compiles (it used a ghost variable of a hint that is gone) is left out as well;
+    #  3. a fuzzy placement that does not make the whole function verify is replaced by leaving the hint out;
+    #  4. if the resulting hint configuration has no entry in contracts/hint_baseline.json the function is verified with no hint;
+    #  5. a function the tools still reject has its body dropped (its contract is then unverified -> UNDECIDED).
+    # Failures inside a function that reached steps 1-4 are judged differentially against the SAME hint configuration on the
+    # unchanged tree (hint_baseline.json); all other functions are decided as usual.
+    hint_state = {}
+    for attempt in range(12):
         cfg = dict(base_cfg)
         cfg['nohint_fns'] = nohint
         cfg['drop_bodies'] = list(base_cfg['drop_bodies']) + dropped
+        cfg['skip_hints'] = dict((k, sorted(v)) for k, v in skip.items() if k not in nohint)
         cfgp = os.path.join(cdir, 'extract_attempt%d.json' % attempt)
         json.dump(cfg, open(cfgp, 'w'))
         path, xlog, err = D.gen(cdir, extract_cfg=cfgp)
@@ -115,18 +193,25 @@ def run_all(tier, seed):
             res['reason'] = 'extraction: ' + str(err[2])[:2000]
             json.dump(res, open(rfile, 'w'))
             return res, cdir
-        # a function with a lost anchor/loop/closure is verified WITHOUT ANY hint, so that its verdicts are comparable with
-        # contracts/nohint_baseline.json (computed hint-free on the unchanged tree)
-        lost_now = set()
+        lost_map, fuzzy_map = {}, {}
         for l in xlog.get('lost', []):
-            m = re.match(r'LOST-\w+ (\S+)', l)
-            if m and m.group(1) not in nohint:
-                lost_now.add(m.group(1))
-        if lost_now and attempt < 3:
-            for k in sorted(lost_now):
-                nohint.append(k)
-                res['degraded'][k] = 'hints not injected (anchor lost: source restructured)'
-            continue
+            m = re.match(r'LOST-(?:ANCHOR|LOOP|CLOSURE) (\S+) (\S+)', l)
+            if m:
+                lost_map.setdefault(norm(m.group(1)), set()).add(m.group(2))
+        absent_loop_anchors = {}
+        lost_loops = {}
+        for l in xlog.get('lost', []):
+            m = re.match(r'LOST-LOOP (\S+) loop#(\d+)', l)
+            if m:
+                lost_loops.setdefault(norm(m.group(1)), set()).add(m.group(2))
+        for l in xlog.get('lost', []):
+            m = re.match(r'LOST-ANCHOR (\S+) (anchor#\d+) (loopstart|loopend) #(\d+)', l)
+            if m and m.group(4) in lost_loops.get(norm(m.group(1)), set()):
+                absent_loop_anchors.setdefault(norm(m.group(1)), set()).add(m.group(2))
+        for l in xlog.get('fuzzy', []):
+            m = re.match(r'FUZZY-ANCHOR (\S+) (\S+)', l)
+            if m:
+                fuzzy_map.setdefault(norm(m.group(1)), set()).add(m.group(2))
         # vacuity probe appended to the crate-root module (all trusted axioms in scope)
         txt = open(path).read()
         lit = '// ---- generated literal constants (N4)'
@@ -135,27 +220,72 @@ def run_all(tier, seed):
         open(path, 'w').write(txt)
         r0 = one(path, [], 'z3 default')
         gi = GenIndex(path)
-        tool = [f for f in failures(gi, r0['diags']) if f['kind'] == 'tool']
-        js0 = r0.get('json') or {}
-        if not tool:
-            break
-        fns = sorted(set(f['fn'] for f in tool if f['fn'] and f['module'].startswith('code') and f['src']))
-        if not fns or attempt == 3:
-            break
+        fl0 = failures(gi, r0['diags'])
+        tool = [f for f in fl0 if f['kind'] == 'tool']
         progressed = False
-        for fn in fns:
-            k = re.sub(r'\s+', '', fn)
-            if k not in nohint and k not in dropped:
-                nohint.append(k)
-                res['degraded'][fn] = 'hints not injected (tool error: %s)' % next(f['message'][:100] for f in tool if f['fn'] == fn)
+        if tool:
+            fns = sorted(set(f['fn'] for f in tool if f['fn'] and f['module'].startswith('code') and f['src']))
+            if not fns or attempt == 11:
+                break
+            for fn in fns:
+                k = norm(fn)
+                mine = [f for f in tool if f['fn'] == fn]
+                hinted = set(f['hint'][1] for f in mine if f.get('hint') and norm(f['hint'][0]) == k) - skip.get(k, set())
+                if hinted and k not in nohint and k not in dropped:
+                    skip.setdefault(k, set()).update(hinted)
+                    progressed = True
+                elif k not in nohint and k not in dropped:
+                    nohint.append(k)
+                    res['degraded'][fn] = 'hints not injected (tool error: %s)' % mine[0]['message'][:100]
+                    progressed = True
+                elif k in nohint and k not in dropped:
+                    dropped.append(k)
+                    res['degraded'][fn] = 'BODY NOT VERIFIED (tool error: %s)' % mine[0]['message'][:100]
+                    progressed = True
+            if not progressed:
+                break
+            continue
+        # no tool error: look at the functions whose hints are not all in place
+        failing = set(norm(f['fn']) for f in fl0 if f['fn'] and f['fn'] != 'vp_must_fail')
+        hint_state = {}
+        for k in set(lost_map) | set(fuzzy_map) | set(skip) | set(nohint):
+            if k in dropped:
+                continue
+            if k in nohint:
+                hint_state[k] = {'config': 'ALL'}
+                continue
+            # a loop that no longer exists needs no invariant: its hints (the invariant and the hints anchored at its start/end)
+            # are not "missing" from the proof, the facts they established are simply not established any more
+            gone = set(h for h in lost_map.get(k, set()) if h.startswith('loop#')) | set(absent_loop_anchors.get(k, set()))
+            left_out = (set(lost_map.get(k, set())) | set(skip.get(k, set()))) - gone
+            fz = set(fuzzy_map.get(k, set()))
+            if k in failing and fz:
+                # a fuzzy placement only counts when it lets the whole function verify
+                skip.setdefault(k, set()).update(fz)
                 progressed = True
-            elif k in nohint and k not in dropped:
-                dropped.append(k)
-                res['degraded'][fn] = 'BODY NOT VERIFIED (tool error: %s)' % next(f['message'][:100] for f in tool if f['fn'] == fn)
-                progressed = True
-        if not progressed:
+                continue
+            config = '+'.join(sorted(left_out)) if left_out else 'FULL'
+            hint_state[k] = {'config': config, 'fuzzy_placed': sorted(fz)}
+            if k in failing and config != 'FULL':
+                ent = hb.get(k, {}).get(config)
+                if ent is None or ent.get('tool') or ent.get('rlimit'):
+                    nohint.append(k)
+                    progressed = True
+        if not progressed or attempt == 11:
             break
+    for k, st in hint_state.items():
+        if st['config'] != 'FULL':
+            res['degraded'].setdefault(k, 'verified in hint configuration "%s" (source restructured: some proof hints could not be placed)' % st['config'])
+    res['hint_state'] = hint_state
+    res['renamed_fns'] = sorted(set(re.match(r'RENAMED-LOCAL (\S+)', l).group(1) for l in res.get('extract_log', {}).get('renamed', []) if re.match(r'RENAMED-LOCAL (\S+)', l)))
     runs = [r0]
+    # A function in which the solver ran out of resources is decided by a second run with six times the budget (the verdicts
+    # of the default run inside such a function are not used: near the limit the solver also reports spurious failures).
+    res['retry'] = None
+    if any(f['kind'] == 'rlimit' and f['fn'] != 'vp_must_fail' for f in failures(gi, r0['diags'])):
+        rr = one(path, ['--rlimit', '60'], 'z3 rlimit x6 (retry of functions that ran out of resources)')
+        rr.pop('stdout_tail', None)
+        res['retry'] = rr
     if tier == 'thorough':
         runs.append(one(path, ['--rlimit', '40', '--smt-option', 'smt.random_seed=%d' % (int(seed) % 1000 + 1)], 'z3 rlimit x4, random_seed'))
         runs.append(one(path, ['--rlimit', '40', '--smt-option', 'smt.random_seed=%d' % (int(seed) % 1000 + 77)], 'z3 rlimit x4, second random_seed'))
@@ -226,6 +356,14 @@ def check(prop, tier, seed):
         undecided('verus timed out')
     js = run0.get('json')
     fl_all = failures(gi, run0['diags'])
+    retry = res.get('retry')
+    retried_fns = set()
+    if retry and not retry.get('timeout') and retry.get('json'):
+        rl0 = set(f['fn'] for f in fl_all if f['kind'] == 'rlimit' and f['fn'] != 'vp_must_fail')
+        fl_retry = failures(gi, retry['diags'])
+        if not [f for f in fl_retry if f['kind'] == 'tool']:
+            fl_all = [f for f in fl_all if f['fn'] not in rl0] + [f for f in fl_retry if f['fn'] in rl0]
+            retried_fns = rl0
     # tool-level errors (rustc / unsupported construct / VIR error): nothing was decided
     tool = [f for f in fl_all if f['kind'] == 'tool']
     if tool or js is None or js.get('verification-results', {}).get('encountered-vir-error'):
@@ -237,22 +375,27 @@ def check(prop, tier, seed):
     if not probe:
         undecided('vacuity probe vp_must_fail did not fail: trusted base may be inconsistent')
 
-    # functions whose proof hints could not be placed (source restructured): failures inside them are UNDECIDED, never alarms
-    lost_fns = set(re.sub(r'\s+', '', k) for k in res.get('degraded', {}))
+    # functions whose proof hints are not all in place (source restructured): failures inside them are judged against the same
+    # hint configuration on the unchanged tree (contracts/hint_baseline.json); without a usable entry they are UNDECIDED
+    hint_state = res.get('hint_state', {})
+    renamed_fns = set(re.sub(r'\s+', '', k) for k in res.get('renamed_fns', []))
+    novel = novelty(res.get('extract_log', {}))
+    lost_fns = set(k for k, st in hint_state.items() if st['config'] != 'FULL')
     dropped_fns = set(re.sub(r'\s+', '', k) for k, v in res.get('degraded', {}).items() if v.startswith('BODY NOT VERIFIED'))
-    for l in res.get('extract_log', {}).get('lost', []):
-        m = re.match(r'LOST-\w+ (\S+)', l)
-        if m:
-            lost_fns.add(m.group(1))
-    try:
-        nohint_baseline = json.load(open(os.path.join(D.VERIF, 'contracts', 'nohint_baseline.json')))
-    except Exception:
-        nohint_baseline = {}
+    hint_baseline = load_hint_baseline()
     bd = fn_breakdown(js)
+    if retried_fns:
+        bd2 = fn_breakdown(retry.get('json'))
+        for n, d in bd2.items():
+            if any(n.endswith('::' + str(fk).split('::')[-1]) for fk in retried_fns):
+                bd[n] = d
     fn_labels = gi.fn_labels()
     # labelled obligations of this property: (function key, label)
     obligations = []
+    lib_names = set(nm for (ln, nm, key, src) in gi.fn_at if not key and not gi.module_of(ln).startswith('code'))
     for fkey, labs in fn_labels.items():
+        if fkey in lib_names:
+            continue   # labels written on trait-level clauses in the prelude name obligations of the verified impls
         for lab in labs:
             if lab.split('.')[0] == prop:
                 obligations.append((fkey, lab))
@@ -265,6 +408,13 @@ def check(prop, tier, seed):
             if key and src and re.sub(r'\s+', '', key) not in dropped and not gi.module_of(ln).startswith('sp'):
                 obligations.append((key, 'C03.%s.total' % key))
     obligations = sorted(set(obligations))
+    # a contract whose function is no longer found in the source (renamed / removed) decides nothing: lost anchor, never an alarm
+    for l in res.get('extract_log', {}).get('lost', []):
+        m = re.match(r'LOST-(FN|ITEMS) (.*?)(?: \(contract in (\S+)\))?$', l)
+        if m:
+            labs = contract_labels(m.group(2), m.group(3))
+            if any(x.split('.')[0] == prop for x in labs) or (prop == 'C03' and m.group(1) == 'FN'):
+                undecided('the contract of `%s` could not be attached: no such function in the current source (renamed or removed)' % m.group(2))
     if not obligations:
         undecided('no obligation labelled %s found in the generated text' % prop)
 
@@ -273,37 +423,67 @@ def check(prop, tier, seed):
     undecided_fns = []  # rlimit failures that concern this property
     prop_fns = set(f for f, _ in obligations)
     support_failed = []
+    inherited = gi.fn_inherited_labels()
     for f in fl:
         labs = list(f['labels'])
         fkey = f['fn']
-        if not labs:
-            # body-level failure or inherited trait clause: taints every labelled clause of the function
-            labs = fn_labels.get(fkey, [])
-        props = props_of_labels(labs)
-        is_c03 = any(m in f['message'] for m in C03_MSGS) and f['module'].startswith('code')
-        if is_c03 and 'C03' not in props:
-            props.append('C03')
-        in_lib = f['module'] in ('sp', 'lem', 'trusted', 'trusted_code') or f['module'].startswith('standin')
+        in_lib = f['module'] in ('sp', 'lem', 'trusted', 'trusted_code', 'ghost_first') or f['module'].startswith('standin')
         if in_lib:
             support_failed.append(f)
             continue
+        broken = False   # the proof of the function is broken at a point that names no property: nothing inside it is decided
+        clause_fn = gi.fn_of(f['clause_line']) if f.get('clause_line') else None
+        clause_outside = (clause_fn is None) or ((clause_fn[2] or clause_fn[1]) != fkey)
+        if not labs and 'postcondition not satisfied' in f['message'] and clause_outside:
+            # a trait-level clause the impl method is checked against
+            labs = list(inherited.get(fkey, []))
+            if labs:
+                f = dict(f)
+                f['labels'] = labs
+        if labs:
+            props = props_of_labels(labs)
+        elif f['kind'] == 'semantic' and (any(m in f['message'] for m in C03_PANIC_MSGS)
+                                          or ('precondition not satisfied' in f['message'] and clause_outside
+                                              and not (clause_fn and gi.module_of(f['clause_line']).startswith('code')))):
+            # overflow, division by zero, out-of-range index, non-termination, or the precondition of a LIBRARY function
+            # (unwrap/expect/index/slice/advance/copy_from_slice: a panic): property C03 and nothing else
+            props = ['C03']
+        else:
+            # failed assertion of a proof hint, loop invariant, or the precondition of another function of the crate: the proof
+            # is broken here, which decides nothing (neither for C03 nor for the labelled clauses of this function)
+            broken = True
+            props = props_of_labels(fn_labels.get(fkey, []))
+            if f['module'].startswith('code') and 'C03' not in props:
+                props.append('C03')
         concerns = prop in props or (not props and fkey in prop_fns)
         if not concerns:
             continue
         nk = re.sub(r'\s+', '', str(fkey))
-        if f['kind'] == 'rlimit' or nk in lost_fns:
+        if nk in novel:
+            f = dict(f)
+            f['message'] = '%s %s: a failed proof inside it decides nothing; ' % (fkey, novel[nk]) + f['message']
+            undecided_fns.append(f)
+        elif nk in renamed_fns:
+            # the hints were rewritten to follow renamed locals (a guess, however careful): a function that verifies is
+            # verified, but a failure inside it is not evidence against the code
+            f = dict(f)
+            f['message'] = 'locals of %s were renamed and the proof hints rewritten accordingly; ' % fkey + f['message']
+            undecided_fns.append(f)
+        elif broken:
+            f = dict(f)
+            f['message'] = 'proof broken inside the function (%s: %s); ' % (f['message'][:40], (f.get('clause') or '')[:80])
+            undecided_fns.append(f)
+        elif f['kind'] == 'rlimit' or nk in lost_fns:
             if nk in lost_fns:
-                # hint-free differential: a labelled postcondition that Verus proves WITHOUT hints on the unchanged tree
-                # (contracts/nohint_baseline.json) and that fails without hints on this tree is a violation
-                base = set(nohint_baseline.get(nk, []))
-                mine_l = [l for l in f['labels'] if l.split('.')[0] == prop]
-                if f['kind'] == 'semantic' and mine_l and all(l in base for l in mine_l) and 'postcondition' in f['message']:
+                config = hint_state[nk]['config']
+                ent = hint_baseline.get(nk, {}).get(config)
+                if f['kind'] == 'semantic' and ent and not ent.get('tool') and not ent.get('rlimit') and fsig(f) not in ent.get('failed', []):
                     f = dict(f)
-                    f['message'] = f['message'] + ' [function restructured: verified without hints; this clause is proved hint-free on the unchanged tree]'
+                    f['message'] = f['message'] + ' [function restructured: hint configuration "%s"; this obligation is discharged in the same configuration on the unchanged tree]' % config
                     violations.append(f)
                     continue
                 f = dict(f)
-                f['message'] = 'proof hints could not be used in %s (source restructured); ' % fkey + f['message']
+                f['message'] = 'proof hints could not be used in %s (source restructured, configuration "%s"); ' % (fkey, config) + f['message']
             undecided_fns.append(f)
         else:
             violations.append(f)
@@ -415,7 +595,12 @@ def check(prop, tier, seed):
         'exec_functions_verified_in_run': len(code_ok),
         'vacuity_probe': 'vp_must_fail failed as required',
         'backends': [{'name': r['name'], 'wall_s': round(r['wall_s'], 1), 'verified': (r.get('json') or {}).get('verification-results', {}).get('verified'),
-                      'errors': (r.get('json') or {}).get('verification-results', {}).get('errors')} for r in res['runs']],
+                      'errors': (r.get('json') or {}).get('verification-results', {}).get('errors')} for r in res['runs'] + ([retry] if retry else [])],
+        'functions_decided_by_the_retry_run': sorted(retried_fns),
+        'functions_verified_in_a_reduced_hint_configuration': dict((k, st['config']) for k, st in hint_state.items() if st['config'] != 'FULL'),
+        'functions_whose_hints_follow_renamed_locals': sorted(renamed_fns),
+        'functions_under_the_novelty_guard': novel,
+        'hint_baseline': 'contracts/hint_baseline.json (%s)' % ('in date' if hint_baseline else 'missing or stale: every failure inside a restructured function is UNDECIDED'),
         'solver_time_s': round(smt_s, 2),
         'unstable_under_other_seeds': unstable,
         'normalisation_rules_applied': sum(len(x['rules']) for x in res['extract_log'].get('rules', [])),
@@ -476,4 +661,12 @@ def check_main(argv):
     if prop not in PROP_IDS:
         print('unknown property', prop)
         sys.exit(64)
-    check(prop, tier, seed)
+    try:
+        check(prop, tier, seed)
+    except SystemExit:
+        raise
+    except BaseException as e:   # an internal error of the machinery is never an alarm
+        import traceback
+        traceback.print_exc()
+        print('UNDECIDED property=%s internal error of the checker: %s: %s' % (prop, type(e).__name__, str(e)[:300]))
+        sys.exit(2)
